@@ -11,6 +11,9 @@ CHECKS = {
  "C09": dict(text="Same specification and transition cover as C01; the trace specification tracks line/column incrementally in its Feed action and compares the position reported by 5 whole-buffer front-ends and 11 reader variants (whole, 1-byte, 3-byte reads, errors behind the 4096/8192-byte refills) with the position of the specification's Err step (or end of input).",
              note="Trusted: JsonText's Err step is the first offending byte (ViablePrefix + GrammarEquiv checked by TLC within bounds). Chunkings are the three listed plus refill-boundary cases, not all.",
              tech="TLA+ spec (JsonText) + TLC trace validation of recorded error positions", ref="6/C09"),
+ "C02": dict(text="JsonValue.tla gives the denotation of every RFC 8259 text (recursive-descent reading of the grammar JsonText recognises, exact decimals as digit sequences, escapes and surrogate pairs decoded to bytes, member lists with last-duplicate-wins) and the relation Allowed between a literal and what a parser may return (int64 equal; float64 whose two neighbouring midpoints enclose the literal; json.Number/gen.Big whose text denotes the same decimal; plain integers that fit int64 must be int). TLC checks the denotation total on every accepted text of the bounded exploration plus unit laws of the decimal arithmetic, enumerates number-literal shapes and string bodies from set expressions, and judges every value returned by 7 front-end variants (whole-buffer fast paths, 1-byte slow paths, tokenizer callbacks rebuilt with alt.Builder) in a trace specification.",
+             note="Trusted: the harness computes the two midpoints around each RETURNED float64 with math/big (a fact about the format); JsonValue.tla as the reading of RFC 8259 section 6/7. Literal shapes are enumerated up to 22 (quick) / 40 (thorough) digits; other documents are sampled.",
+             tech="TLA+ denotational spec (JsonValue) + TLC-enumerated literal shapes replayed into the parsers + TLC trace validation of returned values", ref="6/C02"),
 }
 NA_REASON = "check not built yet in this round; planned with the TLA+ specification named in DESIGN.md section 6 (no different technique is substituted)"
 
